@@ -25,7 +25,9 @@ TEXTS = ["plain", "with \"quotes\"", "back\\slash", "triple \"\"\" quotes", " le
          "a" * 75, "# not a comment", "multi\n\n\nblank lines", "  ", "x",
          # white space that is not GraphQL's (space, tab): no part of any indentation
          "\u00a0nbsp first\n\u00a0nbsp second", "\u3000wide\n\u3000  wide too", "\u00a0", "text\n\u2003", "\u2028", "\x1f unit sep\n\x1f again", "\x0b\x0c", "\u00a0" + "b" * 80,
-         "\x85 nel\n\x85 nel", "ends with nbsp\u00a0\n\u00a0"]
+         "\x85 nel\n\x85 nel", "ends with nbsp\u00a0\n\u00a0",
+         # a single GraphQL line that Python's str.splitlines() would split: leading / trailing blanks must survive
+         " first\u2028second", "\tfirst\u2029second", " a\x85b", "  a\x1cb", " a\x1db\x1e", "a\u2028 ", " \u2028 x"]
 LOCS_EXEC = ["QUERY", "MUTATION", "SUBSCRIPTION", "FIELD", "FRAGMENT_DEFINITION", "FRAGMENT_SPREAD", "INLINE_FRAGMENT", "VARIABLE_DEFINITION",
              "FRAGMENT_VARIABLE_DEFINITION"]
 LOCS_TS = ["SCHEMA", "SCALAR", "OBJECT", "FIELD_DEFINITION", "ARGUMENT_DEFINITION", "INTERFACE", "UNION", "ENUM", "ENUM_VALUE", "INPUT_OBJECT",
@@ -342,6 +344,50 @@ def with_redefined_directive(S, rnd):
     return out
 
 
+def _t(kind, name, **kw):
+    d = {"kind": kind, "name": name, "description": None, "specifiedBy": None, "fields": [], "interfaces": [], "members": [], "values": [], "inputFields": [],
+         "oneOf": False}
+    d.update(kw)
+    return d
+
+
+def _iv(name, t):
+    return {"name": name, "type": t, "description": None, "deprecation": None, "hasDefault": False, "default": {"t": "null"}}
+
+
+def _f(name, t, args=()):
+    return {"name": name, "type": t, "description": None, "deprecation": None, "args": list(args)}
+
+
+def lone_schemas():
+    """Small schemas in which a built-in scalar (never listed explicitly: it is in the schema only because something refers to
+    it) is referred to from exactly one place, for every kind of place - in particular places no root reaches"""
+    out = []
+    for bt in ("Int", "Float", "ID"):
+        for wrap in (lambda t: t, lambda t: ["NN", ["L", ["NN", t]]]):
+            T = wrap(N(bt))
+            q = _t("OBJECT", "Query", fields=[_f("a", N("String"))])
+            places = {
+                "interface-field-arg": [_t("INTERFACE", "Lone", fields=[_f("f", N("String"), [_iv("x", T)])])],
+                "interface-field-type": [_t("INTERFACE", "Lone", fields=[_f("f", T)])],
+                "interface-of-interface-arg": [_t("INTERFACE", "Lone", fields=[_f("f", N("String"), [_iv("x", T)])]),
+                                               _t("INTERFACE", "Sub", interfaces=["Lone"], fields=[_f("f", N("String"), [_iv("x", T)])])],
+                "unreached-object-arg": [_t("OBJECT", "Other", fields=[_f("f", N("String"), [_iv("x", T)])])],
+                "unreached-object-type": [_t("OBJECT", "Other", fields=[_f("f", T)])],
+                "unused-input-field": [_t("INPUT_OBJECT", "Unused", inputFields=[_iv("f", T)])],
+                "union-member-field": [_t("OBJECT", "Member", fields=[_f("f", T)]), _t("UNION", "Un", members=["Member"])],
+                "root-field-arg": [],
+            }
+            for place, extra in places.items():
+                query = q if place != "root-field-arg" else _t("OBJECT", "Query", fields=[_f("a", N("String"), [_iv("x", T)])])
+                out.append({"description": None, "query": "Query", "mutation": None, "subscription": None, "types": [query] + extra, "directives": [],
+                            "_place": f"{place}:{bt}"})
+            out.append({"description": None, "query": "Query", "mutation": None, "subscription": None, "types": [q],
+                        "directives": [{"name": "dd", "description": None, "locations": ["FIELD"], "repeatable": False, "args": [_iv("x", T)]}],
+                        "_place": f"directive-arg:{bt}"})
+    return out
+
+
 # ---------------------------------------------------------------------------------------------
 # renderer 1: SDL text (own writer, independent of print_schema)
 
@@ -537,7 +583,7 @@ def proj_ast_value(node, t=None):
     if isinstance(node, ast.NullValueNode):
         return {"t": "null"}
     if isinstance(node, ast.IntValueNode):
-        if t is GraphQLID:
+        if t is GraphQLID or (t is None and node.value == "-0"):        # read without a type, "-0" stays a spelling (it is no Int's print)
             return {"t": "s", "v": [ord(c) for c in node.value]}
         return {"t": "i", "v": int(node.value)}
     if isinstance(node, ast.FloatValueNode):
